@@ -1,5 +1,284 @@
-import CachedModel
+/-
+  C14  Frequency estimates never under-count, saturate safely and age by halving.
+
+  All statements are about `CachedModel/Sketch.lean`, the transcription of src/cache/lfu/*.rs that the
+  correspondence check runs against the real `Row`, `FrequencyCounter` and `TinyLFU` on every run.
+  Quantifiers: every byte value and nibble (decided exhaustively by the kernel), every row, position,
+  hash, seed list, access stream, every even `total ≥ 2` (what `next_power_2(..).max(2)` produces).
+-/
+import CachedProofs.Lemmas.Sketch
 
 namespace Cached
+
+/-- Well-formed sketch: at least one row, `total` even and ≥ 2, every row `total/2` bytes long. -/
+def FreqCounter.WF (fc : FreqCounter) : Prop := RowsWF fc.total fc.rows ∧ fc.rows ≠ []
+
+/-- Byte level, all 256 × 2 cases: an increment is `min (c+1) 15` (saturates, never wraps),
+    leaves the sibling nibble alone (no carry), and ageing halves each nibble rounding down. -/
+theorem C14_byte_level (b : Byte) (odd : Bool) :
+    nib (incNib b odd) odd = min (nib b odd + 1) 15 ∧
+    nib (incNib b odd) (!odd) = nib b (!odd) ∧
+    nib (halfByte b) odd = nib b odd / 2 ∧
+    nib b odd < 16 :=
+  ⟨nib_incNib_same b odd, nib_incNib_other b odd, nib_halfByte b odd, nib_lt_16 b odd⟩
+
+/-- Row level: incrementing position `p` changes exactly that counter, to `min (c+1) 15`. -/
+theorem C14_row_increment (r r' : Row) (p : Nat) (h : r.incrementAt p = some r') :
+    r'.getAt p = (r.getAt p).map (fun c => min (c + 1) 15) ∧
+    (∀ q, q ≠ p → r'.getAt q = r.getAt q) ∧ r'.length = r.length :=
+  ⟨Row.getAt_incrementAt_same h, fun _ hq => Row.getAt_incrementAt_other h hq, Row.incrementAt_length h⟩
+
+/-- No index is ever out of bounds in a well-formed sketch: increments and estimates are defined. -/
+theorem C14_in_bounds (fc : FreqCounter) (wf : fc.WF) (h : Nat) :
+    (∃ fc', fc.increment h = some fc' ∧ fc'.WF) ∧ (∃ e, fc.estimate h = some e ∧ e ≤ 15) := by
+  obtain ⟨rows', hr, wf'⟩ := incRows_isSome wf.1 h
+  obtain ⟨e, he, _⟩ := estRows_isSome wf.1 h 255
+  refine ⟨⟨{ fc with rows := rows' }, by simp [FreqCounter.increment, hr], wf', ?_⟩, e, he, estRows_le_15 wf.2 h 255 e he⟩
+  intro hnil
+  simp only at hnil
+  subst hnil
+  cases hrows : fc.rows with
+  | nil => exact wf.2 hrows
+  | cons p rest =>
+    obtain ⟨s, r⟩ := p
+    rw [hrows] at hr
+    simp only [incRows] at hr
+    split at hr <;> simp at hr
+
+/-- Incrementing `h` raises its estimate by exactly one, saturating at 15; incrementing any other hash
+    never lowers it. -/
+theorem C14_increment_effect (fc fc' : FreqCounter) (wf : fc.WF) (h h' e : Nat)
+    (hinc : fc.increment h' = some fc') (he : fc.estimate h = some e) :
+    (h' = h → fc'.estimate h = some (min (e + 1) 15)) ∧ (∃ e', fc'.estimate h = some e' ∧ e ≤ e') := by
+  unfold FreqCounter.increment at hinc
+  cases hr : incRows fc.total h' fc.rows with
+  | none => simp [hr] at hinc
+  | some rows' =>
+    simp only [hr, Option.some.injEq] at hinc
+    subst hinc
+    constructor
+    · intro heq
+      subst heq
+      exact estRows_self_incRows h' fc.rows rows' 255 255 e hr (Or.inr ⟨rfl, rfl, wf.2⟩) he
+    · exact estRows_mono_incRows h h' fc.rows rows' 255 255 e hr (Nat.le_refl _) he
+
+/-- the quantity that never under-counts: sketch estimate plus the doorkeeper bit -/
+def TinyLFU.potential (t : TinyLFU) (h : Nat) : Option Nat :=
+  (t.fc.estimate h).map (fun e => e + (if t.dk.contains h then 1 else 0))
+
+/-- A run of recorded accesses `(hash, result of add_if_missing)` without ageing. -/
+def TinyLFU.run (t : TinyLFU) : List (Nat × Bool) → Option TinyLFU
+  | [] => some t
+  | (h, added) :: rest =>
+    if !t.addLegal h added then none
+    else match t.incrementFor h added with
+      | some t' => TinyLFU.run t' rest
+      | none => none
+
+theorem TinyLFU.incrementFor_noReset {t t' : TinyLFU} {h : Nat} {added : Bool}
+    (hlt : t.incs + 1 < t.resetAt) (hi : t.incrementFor h added = some t') :
+    t'.incs = t.incs + 1 ∧ t'.resetAt = t.resetAt ∧
+    ((added = true ∧ t'.dk = h :: t.dk ∧ t'.fc = t.fc) ∨
+     (added = false ∧ t'.dk = t.dk ∧ t.fc.increment h = some t'.fc)) := by
+  unfold TinyLFU.incrementFor at hi
+  cases added with
+  | true =>
+    simp only [if_true] at hi
+    have : ¬ (t.incs + 1 ≥ t.resetAt) := by omega
+    simp only [this, if_false, Option.some.injEq] at hi
+    subst hi
+    simp
+  | false =>
+    simp only [Bool.false_eq_true, if_false] at hi
+    cases hfc : t.fc.increment h with
+    | none => simp [hfc] at hi
+    | some fc' =>
+      simp only [hfc] at hi
+      have : ¬ (t.incs + 1 ≥ t.resetAt) := by omega
+      simp only [this, if_false, Option.some.injEq] at hi
+      subst hi
+      simp
+
+theorem TinyLFU.incrementFor_wf {t t' : TinyLFU} {h : Nat} {added : Bool} (wf : t.fc.WF)
+    (hi : t.incrementFor h added = some t') : t'.fc.WF := by
+  have hreset : ∀ fc : FreqCounter, fc.WF → fc.reset.WF := by
+    intro fc w
+    refine ⟨⟨w.1.1, w.1.2.1, ?_⟩, ?_⟩
+    · intro p hp
+      simp only [FreqCounter.reset, List.mem_map] at hp
+      obtain ⟨q, hq, rfl⟩ := hp
+      simp [Row.half, w.1.2.2 q hq, FreqCounter.reset]
+    · simp only [FreqCounter.reset]
+      intro hnil
+      exact w.2 (List.map_eq_nil_iff.mp hnil)
+  unfold TinyLFU.incrementFor at hi
+  cases added with
+  | true =>
+    simp only [if_true] at hi
+    split at hi
+    · simp only [Option.some.injEq] at hi; subst hi; exact hreset _ wf
+    · simp only [Option.some.injEq] at hi; subst hi; exact wf
+  | false =>
+    simp only [Bool.false_eq_true, if_false] at hi
+    cases hfc : t.fc.increment h with
+    | none => simp [hfc] at hi
+    | some fc' =>
+      obtain ⟨⟨fc'', h1, w''⟩, _⟩ := C14_in_bounds t.fc wf h
+      rw [hfc] at h1
+      cases h1
+      simp only [hfc] at hi
+      split at hi
+      · simp only [Option.some.injEq] at hi; subst hi; exact hreset _ w''
+      · simp only [Option.some.injEq] at hi; subst hi; exact w''
+
+/-- **Never under-counts.** Within one ageing window, after any legal run of recorded accesses
+    (any interleaving with other hashes, any Bloom-filter false positives), the estimate of `h`
+    — for every legal doorkeeper answer — is at least the number of recorded accesses of `h`, capped at 15,
+    and never more than 16. -/
+theorem C14_never_undercounts (h : Nat) :
+    ∀ (stream : List (Nat × Bool)) (t t' : TinyLFU) (n : Nat), t.fc.WF →
+      t.incs + stream.length < t.resetAt →
+      (∃ p, t.potential h = some p ∧ min n 15 ≤ p) →
+      t.run stream = some t' →
+      ∃ p', t'.potential h = some p' ∧ min (n + (stream.filter (fun a => a.1 == h)).length) 15 ≤ p' := by
+  intro stream
+  induction stream with
+  | nil =>
+    intro t t' n _ _ hp hrun
+    simp only [TinyLFU.run, Option.some.injEq] at hrun
+    subst hrun
+    simpa using hp
+  | cons a rest ih =>
+    intro t t' n wf hlen hp hrun
+    obtain ⟨h', added⟩ := a
+    simp only [TinyLFU.run] at hrun
+    split at hrun
+    · cases hrun
+    · rename_i hlegal
+      cases hi : t.incrementFor h' added with
+      | none => simp [hi] at hrun
+      | some t1 =>
+        simp only [hi] at hrun
+        simp only [List.length_cons] at hlen
+        obtain ⟨hincs, hres, hcase⟩ := TinyLFU.incrementFor_noReset (by omega) hi
+        have wf1 := TinyLFU.incrementFor_wf wf hi
+        obtain ⟨p, hpot, hpn⟩ := hp
+        unfold TinyLFU.potential at hpot
+        cases hest : t.fc.estimate h with
+        | none => simp [hest] at hpot
+        | some e =>
+          simp only [hest, Option.map_some, Option.some.injEq] at hpot
+          have he15 : e ≤ 15 := estRows_le_15 wf.2 h 255 e hest
+          -- potential after this access
+          have step : ∃ p1, t1.potential h = some p1 ∧
+              min (n + (if h' == h then 1 else 0)) 15 ≤ p1 := by
+            rcases hcase with ⟨hadd, hdk, hfc⟩ | ⟨hadd, hdk, hfc⟩
+            · -- the doorkeeper took it
+              subst hadd
+              unfold TinyLFU.potential
+              rw [hfc, hest, hdk]
+              refine ⟨_, rfl, ?_⟩
+              by_cases hh : h' = h
+              · subst hh
+                have hnot : t.dk.contains h' = false := by
+                  simp only [TinyLFU.addLegal, Bool.not_true, Bool.or_false, Bool.not_eq_true'] at hlegal
+                  simpa using hlegal
+                have hnew : (h' :: t.dk).contains h' = true := by simp
+                rw [hnot] at hpot
+                rw [hnew]
+                simp only [Bool.false_eq_true, if_false] at hpot
+                simp only [beq_self_eq_true, if_true]
+                omega
+              · have hb : (h' == h) = false := by simp [hh]
+                have hnew : (h' :: t.dk).contains h = t.dk.contains h := by
+                  simp [Ne.symm hh]
+                rw [hnew]
+                simp only [hb, Bool.false_eq_true, if_false]
+                omega
+            · -- the sketch counted it
+              obtain ⟨hself, e', he', hle⟩ := C14_increment_effect t.fc t1.fc wf h h' e hfc hest
+              unfold TinyLFU.potential
+              rw [hdk]
+              by_cases hh : h' = h
+              · rw [hself hh]
+                refine ⟨_, rfl, ?_⟩
+                have hb : (h' == h) = true := by simp [hh]
+                simp only [hb, if_true]
+                cases hc : t.dk.contains h <;> simp only [hc, Bool.false_eq_true, if_false, if_true] at hpot ⊢ <;> omega
+              · rw [he']
+                refine ⟨_, rfl, ?_⟩
+                have hb : (h' == h) = false := by simp [hh]
+                simp only [hb, Bool.false_eq_true, if_false]
+                cases hc : t.dk.contains h <;> simp only [hc, Bool.false_eq_true, if_false, if_true] at hpot ⊢ <;> omega
+          obtain ⟨p1, hp1, hb1⟩ := step
+          have := ih t1 t' (n + (if h' == h then 1 else 0)) wf1 (by omega) ⟨p1, hp1, hb1⟩ hrun
+          obtain ⟨p', hp', hb'⟩ := this
+          refine ⟨p', hp', ?_⟩
+          simp only [List.filter_cons]
+          by_cases hh : (h' == h) = true
+          · simp only [hh, if_true, List.length_cons] at hb' ⊢; omega
+          · simp only [hh] at hb' ⊢; simpa using hb'
+
+/-- The estimate reported for `h` (any legal doorkeeper answer `b`) dominates the potential and is at most 16. -/
+theorem C14_estimate_bounds (t : TinyLFU) (wf : t.fc.WF) (h : Nat) (b : Bool) (legal : t.hasLegal h b = true)
+    (p : Nat) (hp : t.potential h = some p) :
+    ∃ e, t.estimate h b = some e ∧ p ≤ e ∧ e ≤ 16 := by
+  unfold TinyLFU.potential at hp
+  unfold TinyLFU.estimate
+  cases hest : t.fc.estimate h with
+  | none => simp [hest] at hp
+  | some e =>
+    have he15 : e ≤ 15 := estRows_le_15 wf.2 h 255 e hest
+    simp only [hest, Option.map_some, Option.some.injEq] at hp
+    refine ⟨_, rfl, ?_, ?_⟩
+    · unfold TinyLFU.hasLegal at legal
+      cases hc : t.dk.contains h <;> cases b <;> simp_all <;> omega
+    · split <;> omega
+
+/-- **Ageing.** The access that makes the number of recorded accesses reach `resetAt` — and no earlier one —
+    halves every counter (rounding down), clears the doorkeeper and restarts the count. -/
+theorem C14_ageing (t t' : TinyLFU) (h : Nat) (added : Bool) (hi : t.incrementFor h added = some t') :
+    (t.incs + 1 < t.resetAt → t'.incs = t.incs + 1 ∧ (added = true → t'.fc = t.fc)) ∧
+    (t.incs + 1 ≥ t.resetAt → t'.incs = 0 ∧ t'.dk = [] ∧
+      ∃ fc1, (if added then some t.fc else t.fc.increment h) = some fc1 ∧ t'.fc = fc1.reset) := by
+  constructor
+  · intro hlt
+    obtain ⟨h1, _, hc⟩ := TinyLFU.incrementFor_noReset hlt hi
+    refine ⟨h1, ?_⟩
+    intro ha
+    rcases hc with ⟨_, _, hfc⟩ | ⟨hf, _, _⟩
+    · exact hfc
+    · simp [ha] at hf
+  · intro hge
+    unfold TinyLFU.incrementFor at hi
+    cases added with
+    | true =>
+      simp only [if_true] at hi
+      simp only [hge, if_true, Option.some.injEq] at hi
+      subst hi
+      exact ⟨rfl, rfl, t.fc, rfl, rfl⟩
+    | false =>
+      simp only [Bool.false_eq_true, if_false] at hi
+      cases hfc : t.fc.increment h with
+      | none => simp [hfc] at hi
+      | some fc' =>
+        simp only [hfc] at hi
+        simp only [hge, if_true, Option.some.injEq] at hi
+        subst hi
+        exact ⟨rfl, rfl, fc', rfl, rfl⟩
+
+/-- what "halved" means for every counter of every row -/
+theorem C14_reset_halves (fc : FreqCounter) (seed : Nat) (row : Row) (hmem : (seed, row) ∈ fc.rows) (p : Nat) :
+    (seed, row.half) ∈ fc.reset.rows ∧ row.half.getAt p = (row.getAt p).map (fun c => c / 2) :=
+  ⟨List.mem_map.mpr ⟨(seed, row), hmem, rfl⟩, Row.half_getAt row p⟩
+
+/-- Non-vacuity: a concrete sketch is well formed, and the premises of `C14_never_undercounts` are met by a
+    concrete run with a false positive and a foreign hash in it. -/
+example : (FreqCounter.new 10 [1, 2, 3, 4]).total = 16 ∧ (FreqCounter.new 1 [5]).total = 2 := by decide
+
+example :
+    let t := TinyLFU.new 16 [11, 22, 33, 44]
+    (t.run [(7, true), (7, false), (9, false), (7, false)]).isSome = true ∧
+    t.incs + 4 < t.resetAt ∧ t.potential 7 = some 0 := by decide
 
 end Cached
